@@ -6,7 +6,14 @@ which every `+`, `<`, `<=` the code performs is exact).  The event list is kept 
 sorted by (time, priority, unique_id) with lazily deleted (cancelled) entries, as the code
 does; CPython's `heapq` is abstracted by sorted insertion (trusted: heappop returns the
 least element w.r.t. `__lt__`).  Callables are *programs* (lists of commands) named by a
-small index; `dead` models a callable whose last strong reference was dropped.
+small index; `dead` models a callable whose last strong reference was dropped.  A callable *object* has an identity
+(`Ev.fn`): an ordinary scheduling call creates a fresh one (its id = the tag of that first event), `again` schedules a
+further event with the SAME callable object (a bound method scheduled again and again); `Sim.fns` is the table of
+callables the program still holds strongly; dropping a callable kills every pending event that shares it.
+A callable (or the step body) may *raise*: command `raise x` sets `Sim.raised`, which turns the rest of the program into a no-op
+and which `runUntil` / `runNext` find set after `exec`: they return at once (the exception propagates out of `event.execute()`,
+out of the run method, to the program, which catches it — `caught` — and goes on).  The raising event was popped (consumed), the
+clock is its time, everything still on the list stays there; for programs that do not raise all equations are as before.
 -/
 namespace Mesa.Devs
 
@@ -22,6 +29,7 @@ structure Ev where
   cancelled : Bool
   dead : Bool         -- weak reference to the callable is dead
   act  : Nat          -- which program the callable runs
+  fn   : Nat          -- identity of the callable object (tag of the first event scheduled with it)
 deriving Repr, DecidableEq, Inhabited
 
 /-- `SimulationEvent.__lt__` -/
@@ -45,12 +53,19 @@ def popLive : List Ev → Option (Ev × List Ev)
 /-- the cancelled events `pop_event` throws away on its way to the first live one -/
 def skipped (l : List Ev) : List Ev := l.takeWhile (·.cancelled)
 
+/-- the exception kinds the harness lets a callable raise (`IndexError` is the one `run_until` itself catches around
+    `pop_event`) -/
+inductive Exc where | index | value | key
+deriving Repr, DecidableEq
+
 inductive Cmd where
   | schedAbs (t : Int) (prio : Nat) (act : Nat)
   | schedRel (d : Int) (prio : Nat) (act : Nat)
+  | again (fn : Nat) (d : Int) (prio : Nat)   -- `schedule_event_relative` once more with the SAME callable object `fn`
   | cancel (tag : Nat)
-  | drop (tag : Nat)      -- the program drops its last strong reference to the callable
+  | drop (fn : Nat)       -- the program drops its last strong reference to the callable object `fn`
   | halt                  -- the program sets `model.running = False` (the simulators never look at it)
+  | raise (x : Exc)       -- the callable raises: the commands after it do not run, the run method does not return normally
 deriving Repr, DecidableEq
 
 inductive Kind where | abm | devs
@@ -87,10 +102,12 @@ structure Sim where
   gone : List Nat                -- ghost: ids popped without being executed (cancelled or dead)
   prog : Nat → List Cmd          -- what each user callable does
   stepProg : List Cmd            -- what the user's step body does
+  fns : List (Nat × Nat)         -- callables the program holds strongly: (callable id, program it runs)
+  raised : Option Exc            -- an exception raised by the executing callable, on its way to the caller of the run method
 
 def init (k : Kind) (prog : Nat → List Cmd) (stepProg : List Cmd) : Sim :=
   { kind := k, now := 0, pending := [], nextId := 0, nextTag := 0, steps := 0, log := [], gone := [],
-    prog := prog, stepProg := stepProg }
+    prog := prog, stepProg := stepProg, fns := [], raised := none }
 
 /-- `check_time_unit` -/
 def okUnit (k : Kind) (t : Int) : Bool :=
@@ -98,50 +115,73 @@ def okUnit (k : Kind) (t : Int) : Bool :=
   | .devs => true
   | .abm => t % U == 0
 
-/-- unconditional scheduling of a user event (`_schedule_event` after the checks) -/
-def pushUser (s : Sim) (t : Int) (p a : Nat) : Sim :=
+/-- unconditional scheduling of a user event (`_schedule_event` after the checks).  `c = none`: the call is made with a
+    fresh callable object (which the program keeps a reference to); `c = some k`: with the callable object `k` again. -/
+def pushUser (s : Sim) (t : Int) (p a : Nat) (c : Option Nat := none) : Sim :=
   { s with
     pending := insert { time := t, prio := p, id := s.nextId, tag := s.nextTag, isStep := false,
-                        cancelled := false, dead := false, act := a } s.pending
+                        cancelled := false, dead := false, act := a, fn := c.getD s.nextTag } s.pending
     nextId := s.nextId + 1
-    nextTag := s.nextTag + 1 }
+    nextTag := s.nextTag + 1
+    fns := match c with
+      | none => (s.nextTag, a) :: s.fns
+      | some _ => s.fns }
 
 /-- `schedule_event_next_tick(self.model.step, priority=HIGH)` -/
 def pushStep (s : Sim) : Sim :=
   { s with
     pending := insert { time := s.now + U, prio := 1, id := s.nextId, tag := 0, isStep := true,
-                        cancelled := false, dead := false, act := 0 } s.pending
+                        cancelled := false, dead := false, act := 0, fn := 0 } s.pending
     nextId := s.nextId + 1 }
 
 /-- `schedule_event_absolute` -/
-def schedAbs (s : Sim) (t : Int) (p a : Nat) : Except Err Sim :=
+def schedAbs (s : Sim) (t : Int) (p a : Nat) (c : Option Nat := none) : Except Err Sim :=
   if t < s.now then .error .past
   else if !okUnit s.kind t then .error .unit
-  else .ok (pushUser s t p a)
+  else .ok (pushUser s t p a c)
 
 /-- `schedule_event_relative` (with the negative-delta check of the D3 repair);
     `schedule_event_now` is `d = 0`, `schedule_event_next_tick` is `d = U`. -/
-def schedRel (s : Sim) (d : Int) (p a : Nat) : Except Err Sim :=
+def schedRel (s : Sim) (d : Int) (p a : Nat) (c : Option Nat := none) : Except Err Sim :=
   if d < 0 then .error .past
   else if !okUnit s.kind (s.now + d) then .error .unit
-  else .ok (pushUser s (s.now + d) p a)
+  else .ok (pushUser s (s.now + d) p a c)
+
+/-- the program calls `schedule_event_relative` once more with the callable object `k` it still holds
+    (`none`: it holds no such callable — nothing is called) -/
+def again (s : Sim) (k : Nat) (d : Int) (p : Nat) : Option (Except Err Sim) :=
+  match s.fns.lookup k with
+  | none => none
+  | some a => some (schedRel s d p a (some k))
 
 def cancelTag (s : Sim) (k : Nat) : Sim :=
   { s with pending := s.pending.map fun e =>
       if !e.isStep && e.tag == k then { e with cancelled := true } else e }
 
-def dropTag (s : Sim) (k : Nat) : Sim :=
-  { s with pending := s.pending.map fun e =>
-      if !e.isStep && e.tag == k then { e with dead := true } else e }
+/-- the program drops its last strong reference to the callable object `k`: the weak reference of EVERY pending event
+    scheduled with it is dead from now on, and the program cannot schedule it again -/
+def dropFn (s : Sim) (k : Nat) : Sim :=
+  { s with
+    pending := s.pending.map fun e =>
+      if !e.isStep && e.fn == k then { e with dead := true } else e
+    fns := s.fns.filter fun x => x.1 != k }
 
 /-- a command issued by the program; a rejected scheduling call is caught by the caller
     and leaves the simulator as it was -/
-def doCmd (s : Sim) : Cmd → Sim
+def doCmd1 (s : Sim) : Cmd → Sim
   | .schedAbs t p a => match schedAbs s t p a with | .ok s' => s' | .error _ => s
   | .schedRel d p a => match schedRel s d p a with | .ok s' => s' | .error _ => s
+  | .again k d p => match again s k d p with | some (.ok s') => s' | _ => s
   | .cancel k => cancelTag s k
-  | .drop k => dropTag s k
+  | .drop k => dropFn s k
   | .halt => s
+  | .raise x => { s with raised := some x }
+
+/-- once the program has raised, the rest of it does not run -/
+def doCmd (s : Sim) (c : Cmd) : Sim := if s.raised.isSome then s else doCmd1 s c
+
+/-- the program catches the exception that came out of a run call, and goes on -/
+def caught (s : Sim) : Sim := { s with raised := none }
 
 /-- ABM simulator: keep `model.step` scheduled for the next tick; DEVS: nothing -/
 def rearm (s : Sim) : Sim :=
@@ -158,7 +198,8 @@ def exec (s : Sim) (e : Ev) : Sim :=
   else
     (s.prog e.act).foldl doCmd { s with log := s.log ++ [.user e.id e.tag s.now] }
 
-/-- `run_until` with explicit fuel (`none` = fuel exhausted, the program does not terminate) -/
+/-- `run_until` with explicit fuel (`none` = fuel exhausted, the program does not terminate).  An exception raised by the
+    executed event ends the run on the spot: clock at that event's time, the event consumed, nothing pushed back. -/
 def runUntil : Nat → Sim → Int → Option Sim
   | 0, _, _ => none
   | f+1, s, T =>
@@ -166,10 +207,13 @@ def runUntil : Nat → Sim → Int → Option Sim
     | none => some { s with now := T, pending := [], gone := s.gone ++ (skipped s.pending).map (·.id) }
     | some (e, rest) =>
       let g := s.gone ++ (skipped s.pending).map (·.id)
-      if e.time ≤ T then runUntil f (exec { s with now := e.time, pending := rest, gone := g } e) T
+      if e.time ≤ T then
+        let s' := exec { s with now := e.time, pending := rest, gone := g } e
+        if s'.raised.isSome then some s' else runUntil f s' T
       else some { s with now := T, pending := insert e rest, gone := g }
 
-/-- `run_next_event` (ABM: with the re-scheduling of the D6 repair, which is in `exec`) -/
+/-- `run_next_event` (ABM: with the re-scheduling of the D6 repair, which is in `exec`); an exception of the executed event
+    is left in `raised` for the caller -/
 def runNext (s : Sim) : Sim :=
   match popLive s.pending with
   | none => { s with pending := [], gone := s.gone ++ (skipped s.pending).map (·.id) }
